@@ -110,7 +110,7 @@ def run_case(desc, ctx):
             p0, l0 = digest(pts), digest(losses)
             w = {"sampler": smp, "space": sd, "losses": losses, "extreme": extreme}
             try:
-                with quiet(), G.time_limit(20):
+                with quiet(), G.time_limit(90):
                     s = G.build_sampler(smp)
                     s.sample(space, pts, losses)
                     if sk in ("ParticleSwarm", "CORS") or rng.random() < 0.3:
@@ -183,7 +183,7 @@ def run_case(desc, ctx):
             try:
                 with Wrap(cls, "fit", post=post_fit), Wrap(cls, "predict", post=post_predict), \
                         Wrap(MLSurrogateSampler, "sample_candidates", post=post_pool), Wrap(MLSurrogateSampler, "sample_batch", post=post_batch), \
-                        quiet(), G.time_limit(30):
+                        quiet(), G.time_limit(90):
                     final = sampler.sample(space, pts, losses)
             except G.Timeout:
                 cnt("rejected_timeout")
@@ -266,7 +266,8 @@ def run_case(desc, ctx):
         def allowed(hj, j, ks):
             vals = set()
             for k in ks:
-                v = float(np.clip(hj + prec[j] * k, lo[j], up[j]))
+                # an untouched coordinate (k == 0) is not clipped by the sampler: the grid may exceed the upper bound by its 1e-7 tolerance
+                v = float(hj) if k == 0 else float(np.clip(hj + prec[j] * k, lo[j], up[j]))
                 g = space.param_grid[j]
                 d = np.abs(g - v)
                 for e in g[d <= d.min()]:
